@@ -84,6 +84,207 @@ def sanitised(body, field, K, T, self_name):
     return False, "flows into the result untested (aliases: %s)" % sorted(reach)
 
 
+def eval_remover_flow(ctx, R, fname, en_name, en, sugar_kind, expr_remover, is_stmt):
+    """One remover evaluated on an instance of every node kind, the recursive call and the expression remover replaced
+    by recording stubs: (a) with a sugar node (tuple / anonymous component) put in each child position in turn the node
+    is rejected or the sugar is handed to a remover; (b) without sugar the result is Ok and every child - or what
+    the remover made of it - is part of the result.  Returns the set of node kinds decided this way."""
+    import passeval
+    from finfun import NONE, S, Unsupported
+    from passeval import Leaves, O, Sink, V
+
+    try:
+        w = passeval.PassWorld([AST, "program_structure/src/abstract_syntax_tree/expression_impl.rs", "program_structure/src/abstract_syntax_tree/statement_impl.rs", SST, SSR], SSR)
+    except Exception:
+        return set()
+    w.lenient_opaque = True
+    fn = w.free.get(fname)
+    if fn is None:
+        return set()
+    anon = sugar_kind == "AnonymousComponent"
+
+    def sugar(lv):
+        if anon:
+            return V("Expression", "AnonymousComponent", meta=O("sugar-meta"), id="T", is_parallel=False, params=("L", ()), signals=("L", (lv.expr("sugar-input"),)), names=NONE)
+        return V("Expression", "Tuple", meta=O("sugar-meta"), values=("L", (lv.expr("sugar0"), lv.expr("sugar1"))))
+
+    def contains(x, what, depth=0):
+        if x is what:
+            return True
+        if depth > 8:
+            return False
+        if isinstance(x, Sink):
+            return any(contains(y, what, depth + 1) for y in x.items)
+        if isinstance(x, (tuple, list)):
+            return any(contains(y, what, depth + 1) for y in x if isinstance(y, (tuple, list, dict, Sink)))
+        if isinstance(x, dict):
+            return any(contains(y, what, depth + 1) for y in x.values())
+        return False
+
+    def argv_for(node):
+        out = []
+        for i in fn["sig"]["inputs"]:
+            t_ = i["ty"].replace(" ", "")
+            if t_ in ("Statement", "Expression"):
+                out.append(node)
+            elif t_.startswith("&Option<"):
+                out.append(NONE)
+            else:
+                out.append(O(i["pat"].get("name", "arg")))
+        return out
+
+    def node_index(f_):
+        for j, i in enumerate(f_["sig"]["inputs"]):
+            if i["ty"].replace(" ", "") in ("Statement", "Expression"):
+                return j
+        return 0
+
+    node_ix = node_index(fn)
+    expr_ix = node_index(w.free[expr_remover]) if expr_remover in w.free else 0
+
+    def shares(h, planted_):
+        """is `h` built from parts of the planted node (e.g. a copy of it with one flag changed)?"""
+        if not (isinstance(planted_, tuple) and planted_ and planted_[0] == "V"):
+            return False
+        parts = [v_ for v_ in planted_[3].values() if isinstance(v_, tuple) and v_ and v_[0] in ("O", "L") and (v_[0] == "O" or v_[1])]
+        return any(contains(h, p_) for p_ in parts)
+
+    decided = set()
+    for vname, vdef in en.items():
+        exf, stf = fields_of(vdef)
+        if not exf and not stf:
+            continue
+        # child positions
+        lv0 = Leaves()
+        node0, _b = passeval.build_node(en_name, vname, vdef, lv0, True)
+        if node0[0] != "V":
+            continue
+        positions = []
+        for f_ in vdef["fields"]:
+            t_ = f_["ty"].replace(" ", "")
+            if t_ in ("Expression", "Box<Expression>"):
+                positions.append((f_["name"], None, "e"))
+            elif t_ == "Vec<Expression>":
+                positions += [(f_["name"], 0, "e"), (f_["name"], 1, "e")]
+            elif t_ == "Vec<Access>":
+                positions.append((f_["name"], "access", "e"))
+            elif t_ == "Vec<LogArgument>":
+                positions.append((f_["name"], "log", "e"))
+            elif t_ in ("Statement", "Box<Statement>"):
+                positions.append((f_["name"], None, "s"))
+            elif t_ == "Vec<Statement>":
+                positions += [(f_["name"], 0, "s"), (f_["name"], 1, "s")]
+            elif t_ == "Option<Box<Statement>>":
+                positions.append((f_["name"], "opt", "s"))
+        problems = []
+        unsupported = None
+        worlds = [None] + positions
+        for pos in worlds:
+            lv = Leaves()
+            node, _b = passeval.build_node(en_name, vname, vdef, lv, True)
+            planted = None
+            if pos is not None:
+                fld, ix, kind = pos
+                sg = sugar(lv)
+                planted = sg if kind == "e" else V("Statement", "Return", meta=O("stmt-meta"), value=sg)
+                if ix is None:
+                    node[3][fld] = planted
+                elif ix == "opt":
+                    node[3][fld] = S("Some", planted)
+                elif ix == "access":
+                    node[3][fld] = ("L", (S("ArrayAccess", planted), S("ComponentAccess", "out")))
+                elif ix == "log":
+                    node[3][fld] = ("L", (S("LogStr", "text"), S("LogExp", planted)))
+                else:
+                    items = list(node[3][fld][1])
+                    items[ix] = planted
+                    node[3][fld] = ("L", tuple(items))
+            handed = []
+            made = {}
+
+            def expr_stub(args, handed=handed, made=made):
+                x = args[expr_ix] if expr_ix < len(args) else args[0]
+                handed.append(x)
+                out = ("O", "desugared-expression#%d" % len(made), (("carries", x),))
+                made[id(out)] = x
+                if anon:
+                    return S("Ok", ("T", (Sink(), Sink(), out)))
+                return S("Ok", out)
+
+            def stmt_stub(args, handed=handed, made=made):
+                x = args[node_ix] if node_ix < len(args) else args[0]
+                handed.append(x)
+                out = ("O", "desugared-statement#%d" % len(made), (("carries", x),))
+                made[id(out)] = x
+                if anon:
+                    return S("Ok", ("T", (out, Sink())))
+                return S("Ok", out)
+
+            stubs = {expr_remover: expr_stub}
+            if is_stmt:
+                stubs[fname] = stmt_stub
+            else:
+                stubs[fname] = expr_stub
+            w.stubs = stubs
+            try:
+                res = w.call_fn(fn, argv_for(node))
+            except (Unsupported, passeval.Panic) as u:
+                unsupported = str(u)
+                break
+            finally:
+                w.stubs = {}
+            is_err = isinstance(res, tuple) and len(res) > 2 and res[1] == "Err"
+            is_ok = isinstance(res, tuple) and len(res) > 2 and res[1] == "Ok"
+            if pos is not None:
+                same_kind = [h for h in handed if isinstance(h, tuple) and len(h) > 2 and h[0] == "V" and h[2] == sugar_kind]
+                if not (is_err or any(contains(h, planted) or shares(h, planted if pos[2] == "e" else planted[3]["value"]) for h in handed) or same_kind):
+                    problems.append("a %s in %s%s is neither rejected nor handed to a remover" % ("tuple" if not anon else "anonymous component", pos[0], "" if pos[1] is None else "[%s]" % pos[1]))
+            else:
+                if not is_ok:
+                    problems.append("a node without any sugar is rejected")
+                else:
+                    # every child (or what a remover made of it) is part of the result
+                    for f_ in vdef["fields"]:
+                        val = node[3].get(f_["name"])
+                        t_ = f_["ty"].replace(" ", "")
+                        if t_ not in ("Expression", "Box<Expression>", "Statement", "Box<Statement>", "Vec<Expression>", "Vec<Statement>", "Option<Box<Statement>>"):
+                            continue
+                        kids = list(val[1]) if isinstance(val, tuple) and val and val[0] == "L" else ([val[2][0]] if isinstance(val, tuple) and len(val) > 2 and val[1] == "Some" else [val])
+                        for kid in kids:
+                            through = [o_ for o_, x in ((o2, made[id(o2)]) for o2 in _objs(res) if id(o2) in made) if x is kid]
+                            if not (contains(res, kid) or through):
+                                problems.append("child `%s` is missing from the result (what it held disappears from the program)" % f_["name"])
+        if unsupported is not None:
+            ctx.note("%s/%s is outside the evaluator's subset (%s): shape obligations apply" % (fname, vname, unsupported))
+            continue
+        decided.add(vname)
+        ctx.check(R, "%s/%s/sugar-removed-and-children-kept" % (fname, vname), not problems, "; ".join(sorted(set(problems))[:3]) or "sugar in any of the %d child position(s) is rejected or desugared; without sugar every child is kept" % len(positions), SSR)
+    return decided
+
+
+def _objs(x, depth=0):
+    """all opaque objects inside a value"""
+    from passeval import Sink
+
+    if depth > 8:
+        return
+    if isinstance(x, Sink):
+        for y in x.items:
+            yield from _objs(y, depth + 1)
+    elif isinstance(x, tuple):
+        if x and x[0] == "O":
+            yield x
+        for y in x:
+            if isinstance(y, (tuple, list, dict, Sink)):
+                yield from _objs(y, depth + 1)
+    elif isinstance(x, list):
+        for y in x:
+            yield from _objs(y, depth + 1)
+    elif isinstance(x, dict):
+        for y in x.values():
+            yield from _objs(y, depth + 1)
+
+
 def rule_flow(ctx):
     R = "C18.1"
     ctx.rule(R, "in every arm of the removers every expression-carrying field of the matched node is tested with the matching containment predicate under an error return, or passed through the matching expression remover; every statement-carrying field goes through the recursive call")
@@ -123,6 +324,7 @@ def rule_flow(ctx):
         ctx.check(R, "%s/no-shortcut-before-the-arms" % fname, not early, "%d `return` before the match on the node" % len(early), site(SSR, early[0]) if early else site(SSR, fn))
         self_name = "expr" if not is_stmt else None
         seen = set()
+        decided_v = eval_remover_flow(ctx, R, fname, "Statement" if is_stmt else "Expression", en, "AnonymousComponent" if "anonymous" in fname else "Tuple", T, is_stmt)
         for arm in m["arms"]:
             pats = arm["pat"]["cases"] if arm["pat"]["k"] == "POr" else [arm["pat"]]
             for p in pats:
@@ -132,6 +334,9 @@ def rule_flow(ctx):
                         ctx.bad(R, "%s/catch-all-arm" % fname, "a catch-all arm hides node kinds from the flow analysis", site(SSR, arm))
                     continue
                 seen.add(v)
+                if v in decided_v:
+                    n += len(fields_of(en[v])[0]) + len(fields_of(en[v])[1])
+                    continue  # decided by evaluation above
                 binds, rest = a10.pattern_bindings(p)
                 exf, stf = fields_of(en[v])
                 body = arm["body"]
